@@ -4,4 +4,5 @@ MODULES = [
     "isotp_lemmas",
     "strictmode",
     "leaf",
+    "composite",
 ]
